@@ -539,6 +539,57 @@ func c07Property(t *rapid.T, st *Stats) {
 				touched[d] = true
 			}
 		},
+		"blobDeleteOfArtifact": func(t *rapid.T) {
+			// the blob API removes the content of an artifact behind the manifest API's back. While the index entry is
+			// still there "present" is debatable and nothing is asserted; once the manifest has been deleted as well
+			// (202) it is not present by any reading and must leave the listing, and once it has been pushed again it is
+			// present and must be listed once.
+			rn := rapid.SampledFrom(c07Repos).Draw(t, "repo")
+			mr := e.repo(rn)
+			arts := []string{}
+			for _, d := range sortedKeys(mr.mans) {
+				if mr.mans[d].subject != "" && !mr.fuzzy[d] && !mr.refFuzzy[mr.mans[d].subject] {
+					if _, copied := copies[rn+" "+d]; !copied {
+						arts = append(arts, d)
+					}
+				}
+			}
+			if len(arts) == 0 {
+				t.Skip("no artifact")
+			}
+			d := rapid.SampledFrom(arts).Draw(t, "digest")
+			m := mr.mans[d]
+			then := rapid.SampledFrom([]string{"deleteManifest", "deleteManifest", "pushAgain"}).Draw(t, "then")
+			r := e.do("DELETE", "/v2/"+rn+"/blobs/"+d, nil, nil)
+			s.bad(r, "DELETE blob of an artifact")
+			if r.code != 202 {
+				e.abandon("blob delete refused")
+			}
+			if then == "deleteManifest" {
+				r2 := e.do("DELETE", "/v2/"+rn+"/manifests/"+d, nil, nil)
+				s.bad(r2, "DELETE manifest whose blob is gone")
+				e.logf("blobDeleteOfArtifact %s %s (subject=%s): blob %d, manifest %d", rn, short(d), short(m.subject), r.code, r2.code)
+				if r2.code != 202 {
+					// refused: the entry is still there without content - unspecified from here on
+					mr.refFuzzy[m.subject] = true
+					e.modelDeleteDigest(rn, d)
+					return
+				}
+				delete(mr.blobs, d)
+				e.modelDeleteDigest(rn, d)
+				e.class("delete-or-overwrite")
+				e.class("artifact-deleted")
+			} else {
+				r2 := e.putManifest(manifestPlan{repo: rn, raw: m.raw, ct: m.mt, ref: d}, nil)
+				s.bad(r2, "PUT of an artifact whose blob had been deleted")
+				e.logf("blobDeleteOfArtifact %s %s (subject=%s): blob %d, pushed again %d", rn, short(d), short(m.subject), r.code, r2.code)
+				if r2.code != 201 {
+					e.abandon("re-push refused")
+				}
+			}
+			e.class("artifact-blob-deleted")
+			touched[m.subject] = true
+		},
 		"restart": func(t *rapid.T) {
 			if !e.isDir() {
 				t.Skip("mem")
